@@ -402,6 +402,7 @@ type Resp struct {
 	Handler int    // invocations of the wrapped handler
 	Panic   string // non-empty if the call panicked
 	WH      int    // WriteHeader calls beyond the first (http.ResponseWriter allows one; which status a second call leaves depends on the writer)
+	W       string // non-empty if the wrapped handler was NOT handed the writer the server passed in (its dynamic type then)
 }
 
 func (r Resp) String() string {
@@ -412,7 +413,27 @@ func (r Resp) String() string {
 	if r.WH > 0 {
 		s += fmt.Sprintf(" superfluous-WriteHeader-calls=%d", r.WH)
 	}
+	if r.W != "" {
+		s += " " + r.W
+	}
 	return s
+}
+
+// harnessWriter marks the writers the harness passes in. A wrapped handler
+// that receives anything else has been handed a replacement: another identity,
+// other optional interfaces (http.Flusher, http.Hijacker, io.ReaderFrom ...).
+type harnessWriter interface{ isHarnessWriter() }
+
+func (*recWriter) isHarnessWriter() {}
+
+// lastWriterNote: set by the constant handlers, read by serveWith right after
+// the (synchronous, single-goroutine) call returns.
+var lastWriterNote string
+
+func noteWriter(w http.ResponseWriter) {
+	if _, ok := w.(harnessWriter); !ok {
+		lastWriterNote = fmt.Sprintf("handler-got-a-replacement-writer(%T)", w)
+	}
 }
 
 // constHandler is the constant wrapped handler used by differential checks.
@@ -423,6 +444,7 @@ type constHandler struct {
 
 func (h constHandler) ServeHTTP(w http.ResponseWriter, _ *http.Request) {
 	*h.n++
+	noteWriter(w)
 	if h.quiet != nil && *h.quiet {
 		w.Header().Add("Vary", "Accept-Encoding")
 		w.Header().Set("X-Handler", "quiet")
@@ -442,12 +464,13 @@ func serveWith(hh http.Handler, q Req, preset []HV, invoked *int) (resp Resp) {
 	}()
 	*invoked = 0
 	w.outerAppends = q.Shape%nShapes == 9
+	lastWriterNote = ""
 	hh.ServeHTTP(w, q.build())
 	fp := w.snapFP
 	if !w.snapped {
 		fp = headerFP(w.h)
 	}
-	return Resp{Status: w.status, Headers: fp, Body: string(w.body), Handler: *invoked, WH: w.extraWH()}
+	return Resp{Status: w.status, Headers: fp, Body: string(w.body), Handler: *invoked, WH: w.extraWH(), W: lastWriterNote}
 }
 
 // mwServer bundles a middleware-wrapped constant handler.
